@@ -28,8 +28,15 @@ var extraRunes = []rune{'b', 'x', 'z', 'Z', '0', '5', '\t', '%', '\\', '\'', '}'
 	0x00DF, 0x0130, 0x01C5, 0x03A3, 0x03C2, 0x0308, 0x030A, 0x212B, 0x2126, 0xFB01, 0x0958, 0x0F73, 0x1F600, 0x2764, 0x4E2D, 0x6587}
 
 // String draws a valid UTF-8 string of at most maxRunes code points.
+// boundaryLens: string lengths around the size classes of the codecs and of small-buffer fast paths
+// (msgpack fixstr ends at 31 bytes, str8 at 255; 16 and 64 are common stack-buffer sizes).
+var boundaryLens = []int{15, 16, 17, 31, 32, 33, 63, 64, 65, 255, 256, 257}
+
 func String(r *core.Rand, maxRunes int) string {
 	n := r.Intn(maxRunes + 1)
+	if maxRunes >= 4 && r.Chance(1, 60) {
+		n = boundaryLens[r.Intn(len(boundaryLens))]
+	}
 	rs := make([]rune, n)
 	asciiOnly := r.Chance(1, 3)
 	for i := range rs {
